@@ -223,6 +223,23 @@ pub fn run(ctx: &Ctx) -> Report {
             break;
         }
     }
+    // the other start-position constructors
+    {
+        starts.stats.eval(3);
+        let (a, b, c) = (Board::startpos(), Board::default(), Board::chess960_startpos(518));
+        if a != b || a != c || format!("{}", a) != "rnbqkbnr/pppppppp/8/8/8/8/PPPPPPPP/RNBQKBNR w KQkq - 0 1" {
+            starts.failures.push(Failure::new("C06:startpos-constructors-disagree", "Board::startpos(), Board::default() and chess960_startpos(518) differ or are not the standard start position".into()));
+        }
+        if let Err(f) = check_sound(&a, "Board::startpos()", &[("start", "dfrc:518,518".to_string())]) {
+            starts.failures.push(f);
+        }
+        let bb = BoardBuilder::from_board(&a);
+        for color in [Color::White, Color::Black] {
+            if bb.castle_rights(color) != a.castle_rights(color) || BoardBuilder::default() != bb || BoardBuilder::startpos() != bb {
+                starts.failures.push(Failure::new("C06:builder-startpos", "BoardBuilder::default()/startpos()/from_board(startpos) or its castle_rights accessor disagree".into()));
+            }
+        }
+    }
     rep.add(starts);
     rep
 }
